@@ -95,8 +95,19 @@ def gen_input(rng, target, knobs=None, huge=False):
             trees.pop()
             metas.pop()
         data, items, bounds = gen.serialise_stream(trees)
+        label = "stream:%d" % len(trees)
+        if rng.random() < 0.04:
+            # the capture starts with the device reporting its properties (small limits); items of the preamble come
+            # from the reference decode
+            ccmd, crsp = capability_exchange(rng)
+            pre = ccmd + crsp
+            data = pre + data
+            bounds = [0, len(ccmd), len(pre)] + [b + len(pre) for b in bounds[1:]]
+            metas = [dict(kind="command", cc=None, enc=None), dict(kind="response", cc=0x17A, enc=None)] + metas
+            items = model.decode(model.STREAM, data).items
+            label = "stream:cap+%d" % len(trees)
         return dict(root=model.STREAM, data=data, cc=None, enc=None, items=items, arms=g.arms, knobs=k,
-                    bounds=bounds, metas=metas, label="stream:%d" % len(trees))
+                    bounds=bounds, metas=metas, label=label)
     raise ValueError(target)
 
 
@@ -127,7 +138,8 @@ def bystanders(rng, n, knobs=None):
     return out
 
 
-ROOTS = ("capture.msg[3]", "x", "a.b.c", "m[0]", "trace[12].message")
+ROOTS = ("capture.msg[3]", "x", "a.b.c", "m[0]", "trace[12].message",
+         "site.rack[4].host.vm[2].tpm.session[7].capture.file.record[123].frame.payload.message.body.tpm2.value")
 
 
 def enc_sweep_specs(rng, g, n, prefix="sweep"):
@@ -138,6 +150,10 @@ def enc_sweep_specs(rng, g, n, prefix="sweep"):
     out = []
     for j in range(n):
         cc = rng.choice(sorted(L.commands))
+        if rng.random() < 0.04:
+            # the common base class of all parameter areas is importable and decodable (to nothing) too
+            out.append(spec("%s%d" % (prefix, j), "TPMS_PARAMS", b"", None, True, strict=True))
+            continue
         if rng.random() < 0.5:
             tree = g.response(cc, enc=False, fail=False, n_sessions=1)
             data, _ = gen.serialise(tree)
@@ -150,6 +166,22 @@ def enc_sweep_specs(rng, g, n, prefix="sweep"):
             b[at[4]] |= 0x20          # decrypt attribute of the only session, in place
             out.append(spec("%s%d" % (prefix, j), "Command", bytes(b), None, None, strict=rng.random() < 0.5))
     return out
+
+
+def capability_exchange(rng):
+    """the device reports its properties (what tools ask first): GetCapability(TPM_PROPERTIES) answered with a list of tagged
+    properties, every property id of the layout in turn, with *small* values (limits, sizes, counts of a constrained
+    device).  Nothing a device reports may change how later messages of the capture are decoded."""
+    L = layout()
+    ids = [v for a, b in L.types["TPM_PT"]["valid"] for v in range(a, b + 1)]
+    n = rng.randint(4, 24)
+    start = rng.randrange(len(ids))
+    chosen = [ids[(start + j) % len(ids)] for j in range(n)]
+    cmd = b"\x80\x01" + (22).to_bytes(4, "big") + (0x17A).to_bytes(4, "big") + (6).to_bytes(4, "big") + chosen[0].to_bytes(4, "big") + n.to_bytes(4, "big")
+    body = b"\x00" + (6).to_bytes(4, "big") + n.to_bytes(4, "big") + b"".join(
+        pid.to_bytes(4, "big") + rng.choice((0, 1, 4, 10, 16, 24, 32, 64, rng.randint(0, 300))).to_bytes(4, "big") for pid in chosen)
+    rsp = b"\x80\x01" + (10 + len(body)).to_bytes(4, "big") + b"\x00\x00\x00\x00" + body
+    return cmd, rsp
 
 
 def long_stream(rng, min_bytes, knobs=None):
@@ -266,6 +298,8 @@ def run_world(case, res=None):
     if res is not None:
         if any(t.get("root_path") for t in case["tasks"]):
             res.count("decoded-under-caller-chosen-root")
+        if any(t.get("stray_cc") for t in case["tasks"]):
+            res.count("command-code-argument-given-for-non-response")
         res.sched = w.schedule_digest()
         res.digest = w.digest()
         res.count("steps", len(w.history))
@@ -311,9 +345,19 @@ def jdump(x):
 
 
 # ---- fault cases ------------------------------------------------------------------------------
+def stray_cc(rng, s, p=0.05):
+    """the command_code argument is accepted by every front-end for every type; for anything but a lone Response it
+    must not matter (5% of the runs pass one)"""
+    if s["type"] != "Response" and s.get("cc") is None and rng.random() < p:
+        s["cc"] = rng.choice(sorted(layout().commands))
+        s["stray_cc"] = True
+    return s
+
+
 def mk_case(rng, inp, data, recs, strict=True, extra=None, perturbation=True, **kw):
     """case with one main decode of `data` (possibly faulted) of the input's type"""
     main = spec("main", inp["root"], data, inp["cc"], inp["enc"], strict=strict)
+    stray_cc(rng, main)
     specs = [main] + list(extra or [])
     if perturbation:
         tasks, sched = perturb(rng, specs, p_by=0.2, roots=True)
@@ -395,6 +439,22 @@ def gen_malformed(rng, i, p_wellformed=0.1, allow_random=True, huge=False):
                 f = F.fault_size(inp["data"], o, rng, idx=idx, value=new)
                 if f:
                     return inp, f[0], [dict(f[1], delta="far")], "far-size"
+    if huge and inp["root"] == model.STREAM and rng.random() < 0.02 and len(inp.get("bounds", ())) > 2:
+        # an outermost size field corrupted by 64 KiB or more (one flipped upper byte) with that much capture following:
+        # the region to skip is filler (nothing in it is decoded), decoding resumes at / near the next message
+        o = model.decode(inp["root"], inp["data"])
+        b1 = inp["bounds"][1]
+        idx = next((i for i, ri in o.sizefields if o.regions[ri].kind == "commandSize"), None)
+        if idx is not None:
+            n = rng.choice((65536, 65537, 66000, 70000, 131072 + 5))
+            it = o.items[idx]
+            filler = bytes(rng.randrange(256) for _ in range(97)) * (n // 97 + 1)
+            gap = n + rng.choice((0, 0, 0, 1, -1, 3))
+            d2 = F.put(inp["data"], it, it[3] + n)
+            if d2 is not None and gap > 0:
+                data = d2[:b1] + filler[:gap] + d2[b1:]
+                rec = F._rec("size", o, it, idx, old=it[3], new=it[3] + n, region="commandSize", delta="far-filler")
+                return inp, data, [rec, dict(kind="insert", off=b1, depth=0, regions=[], cls="filler", n=gap)], "far-filler"
     o = model.decode(inp["root"], inp["data"], cc=inp["cc"], enc=inp["enc"])
     data = inp["data"]
     if r < 0.05 + p_wellformed:
